@@ -183,6 +183,27 @@ func registerIntrinsics(e *Engine) {
 		}
 		return args[1]
 	})
+	simple(rt+"MaxMake", func(r *Run, args []Value) Value {
+		return r.maxMakeTerm(func(string) bool { return true })
+	})
+	// MaxMakeAt(list, in): largest make length at call sites whose function name
+	// contains one of the '|'-separated substrings (in=true) or none of them (in=false)
+	simple(rt+"MaxMakeAt", func(r *Run, args []Value) Value {
+		subs := strings.Split(r.mustStr(args[0]), "|")
+		in := args[1].(*Term)
+		if !in.IsConst() {
+			panic(engineErr("MaxMakeAt: symbolic flag"))
+		}
+		return r.maxMakeTerm(func(s string) bool {
+			match := false
+			for _, sub := range subs {
+				if sub != "" && strings.Contains(s, sub) {
+					match = true
+				}
+			}
+			return match == in.CB
+		})
+	})
 	simple(rt+"Note", func(r *Run, args []Value) Value {
 		if s, ok := r.strConcrete(args[0].(*StrV)); ok {
 			r.notes = append(r.notes, s)
